@@ -405,7 +405,7 @@ func (c13) Gen(seed int64, tier string, emit func(any)) {
 	r := rand.New(rand.NewSource(seed))
 	n := 500
 	if tier == "thorough" {
-		n = 4000
+		n = 3000
 	}
 	for i := 0; i < n; i++ {
 		z := c13RandInt(r)
